@@ -421,6 +421,7 @@ def run(scn, oracles=(), workload_factory=None, keep_rounds=True):
             set_uuid_stream(None)
         REC = None
     out["ticks"] = rec.tick + 1
+    out["sim_s"] = (rec.tick + 1) / cfg["tps"]
     out["sig"] = digest(rec.sig)
     out["nontrivial"] = any(any(x in ("S", "F") for x in ts) for ts in rec.sig)
     pr = dict(rec.probes)
